@@ -183,6 +183,18 @@ theorem ops_terminate (env : Env) (G : NumKind → Grammar) (hG : ∀ k, Grammar
   rw [hc, canon_fuel] at a
   exact specOp_ne_fuel G op _ a.symm
 
+/-- the chunk oracle loses no generality: every legal return value of a read (0 exactly when nothing is left or
+nothing was asked, otherwise anything from 1 to min(request, available)) is produced by some oracle -/
+theorem chunk_complete (i req avail n : Nat) (h0 : n = 0 ↔ (avail = 0 ∨ req = 0)) (hle : n ≤ min req avail) :
+    chunk (fun _ => n) i req avail = n := by
+  unfold chunk
+  split
+  · rename_i h; exact (h0.mpr h).symm
+  · rename_i h
+    have : n ≠ 0 := fun hn => h (h0.mp hn)
+    show max 1 (min n (min req avail)) = n
+    omega
+
 /-! ## compressed input -/
 
 /-- **compressed_concat**: reading through the member chain with any request sizes and any decoder output
